@@ -1,3 +1,4 @@
+import BlockCiphers.Proofs.GenTables
 import BlockCiphers.Proofs.AriaSpec
 import BlockCiphers.Proofs.CamelliaSpec
 import BlockCiphers.Proofs.Sm4Spec
@@ -6,6 +7,74 @@ C06 — ARIA, Camellia and SM4 conform to RFC 5794, RFC 3713 and GB/T 32907
 GENERATED statement file (tools/gen_thm.py): every theorem below restates, verbatim, a theorem of a Proofs/ module
 and is proved by applying it.  ONLY property theorems and non-vacuity examples live in Thm/.
 -/
+
+namespace BC.GenTables
+open BC.Gen
+theorem C06.aria_SB1_eq : aria_SB1.toList = nats8 BC.Aria.SB1T :=
+  _root_.BC.GenTables.aria_SB1_eq
+end BC.GenTables
+
+namespace BC.GenTables
+open BC.Gen
+theorem C06.aria_SB2_eq : aria_SB2.toList = nats8 BC.Aria.SB2T :=
+  _root_.BC.GenTables.aria_SB2_eq
+end BC.GenTables
+
+namespace BC.GenTables
+open BC.Gen
+theorem C06.aria_SB3_eq : aria_SB3.toList = nats8 BC.Aria.SB3T :=
+  _root_.BC.GenTables.aria_SB3_eq
+end BC.GenTables
+
+namespace BC.GenTables
+open BC.Gen
+theorem C06.aria_SB4_eq : aria_SB4.toList = nats8 BC.Aria.SB4T :=
+  _root_.BC.GenTables.aria_SB4_eq
+end BC.GenTables
+
+namespace BC.GenTables
+open BC.Gen
+theorem C06.aria_DIFFUSE_CONSTS_eq : aria_DIFFUSE_CONSTS.toList = BC.Aria.DIFFUSE_CONSTS.map BitVec.toNat :=
+  _root_.BC.GenTables.aria_DIFFUSE_CONSTS_eq
+end BC.GenTables
+
+namespace BC.GenTables
+open BC.Gen
+theorem C06.aria_C_eq : [aria_C1, aria_C2, aria_C3] = [BC.Aria.C1, BC.Aria.C2, BC.Aria.C3].map BitVec.toNat :=
+  _root_.BC.GenTables.aria_C_eq
+end BC.GenTables
+
+namespace BC.GenTables
+open BC.Gen
+theorem C06.camellia_SBOXES_eq : camellia_SBOXES.toList =
+    nats8 BC.Camellia.SBOX1 ++ nats8 BC.Camellia.SBOX2 ++ nats8 BC.Camellia.SBOX3 ++ nats8 BC.Camellia.SBOX4 :=
+  _root_.BC.GenTables.camellia_SBOXES_eq
+end BC.GenTables
+
+namespace BC.GenTables
+open BC.Gen
+theorem C06.camellia_SIGMAS_eq : camellia_SIGMAS.toList =
+    [BC.Camellia.SIGMA0, BC.Camellia.SIGMA1, BC.Camellia.SIGMA2, BC.Camellia.SIGMA3, BC.Camellia.SIGMA4, BC.Camellia.SIGMA5].map BitVec.toNat :=
+  _root_.BC.GenTables.camellia_SIGMAS_eq
+end BC.GenTables
+
+namespace BC.GenTables
+open BC.Gen
+theorem C06.sm4_SBOX_eq : sm4_SBOX.toList = nats8 BC.Sm4.SBOX :=
+  _root_.BC.GenTables.sm4_SBOX_eq
+end BC.GenTables
+
+namespace BC.GenTables
+open BC.Gen
+theorem C06.sm4_FK_eq : sm4_FK.toList = nats32 BC.Sm4.FK :=
+  _root_.BC.GenTables.sm4_FK_eq
+end BC.GenTables
+
+namespace BC.GenTables
+open BC.Gen
+theorem C06.sm4_CK_eq : sm4_CK.toList = nats32 BC.Sm4.CK :=
+  _root_.BC.GenTables.sm4_CK_eq
+end BC.GenTables
 
 namespace BC.Aria
 open BC.Spec.Aria (A SL1 SL2 FO FE concat byteOf)
